@@ -139,6 +139,9 @@ class QModel:
     elif k == "bulk_post":
       for _ in range(op[2]):
         self.d.post_fifo((self.new_id(), op[1]))
+    elif k == "bulk_defer":
+      for _ in range(op[2]):
+        self.d.defer((self.new_id(), op[1]))
 
   def next_rtc(self):
     """Returns None if the queue is empty, else (event, step result)."""
@@ -282,6 +285,9 @@ class RealQueued:
     elif k == "bulk_post":
       for _ in range(op[2]):
         c.post_fifo(self.new_event(op[1]))
+    elif k == "bulk_defer":
+      for _ in range(op[2]):
+        c.defer(self.new_event(op[1]))
     elif k in ("is_in", "child_state"):
       # a read-only query made from outside, between steps
       o.ret = hsmcheck.run_query(c, self.rt, op)
